@@ -202,9 +202,9 @@ def check_bits(ctx):
 
 def run(ctx):
     quick = ctx.tier == "quick"
-    ctx.bounds = {"basis": "all X-subset circuits on 1..4 qubits", "super": "all circuits of <= %d gates over {X,H,RY(pi/2),S,CNOT,c-RY(pi/2),cc-X on every ordered triple} on 1..3 qubits" % (2 if quick else 3), "Z operators": "every subset of the register"}
+    ctx.bounds = {"basis": "all X-subset circuits on 1..4 qubits", "perm": "every basis state followed by cc-X on every ordered triple of the register (3 qubits; 4 in the thorough tier)", "super": "all circuits of <= %d gates over {X,H,RY(pi/2),S,CNOT,c-RY(pi/2),cc-X on every ordered triple} on 1..3 qubits" % (2 if quick else 3), "Z operators": "every subset of the register"}
     cases = []
-    for mode, mq, ml in (('"basis"', 4, 9), ('"super"', 3, 2 if quick else 3)):
+    for mode, mq, ml in (('"basis"', 4, 9), ('"perm"', 4 if not quick else 3, 9), ('"super"', 3, 2 if quick else 3)):
         res = ctx.tlc("Views", constants=dict(MaxQ=mq, MaxLen=ml, Mode=mode, Emitting=True), invariants=INV, action_constraints=["Emit"], view="ViewNoGm", coverage=False, timeout=3000)
         trans = {}
         zs = {}
